@@ -55,6 +55,10 @@ Definition step1 (s : sst) (e : hev) : sst * list nat :=
   | CSendS _ tok => (mkS (q_c2h s ++ [tok]) true (c_close s) (q_h2c s) (h_ret s) (open_ops s + 1), [])
   | CSendR _ err =>
       if err =? 0 then (mkS (q_c2h s) false (c_close s) (q_h2c s) (h_ret s) (open_ops s - 1), [])
+      else if err =? 77 then
+        (* an injected write fault "delivered, then an error reported": the message may still arrive (once); the stream is
+           torn down by the failed SendMsg, so whatever fails afterwards is excused (recorded as a handler return -77) *)
+        (mkS (q_c2h s) false (c_close s) (q_h2c s) (match h_ret s with None => Some (-77) | x => x end) (open_ops s - 1), [])
       else (* the message of a failed SendMsg is not owed to the handler; failing is legitimate once the handler has returned *)
         (mkS (if c_pend s then removelast (q_c2h s) else q_c2h s) false (c_close s) (q_h2c s) (h_ret s) (open_ops s - 1),
          match h_ret s with Some _ => [] | None => [8%nat] end)
@@ -90,8 +94,10 @@ Definition step1 (s : sst) (e : hev) : sst * list nat :=
                the stream's context is cancelled then *)
             match h_ret s with Some _ => [] | None => [6%nat] end)
   | HSendS _ tok => (mkS (q_c2h s) (c_pend s) (c_close s) (q_h2c s ++ [tok]) (h_ret s) (open_ops s + 1), [])
-  | HSendR _ err => (bump s (-1), if err =? 0 then [] else [8%nat])
-  | HRet _ code => (mkS (q_c2h s) (c_pend s) (c_close s) (q_h2c s) (Some code) (open_ops s), [])
+  | HSendR _ err => (bump s (-1), if err =? 0 then [] else
+                                    match h_ret s with Some r => if r =? -77 then [] else [8%nat] | None => [8%nat] end)
+  | HRet _ code => (mkS (q_c2h s) (c_pend s) (c_close s) (q_h2c s)
+                        (match h_ret s with Some r => if r =? -77 then Some r else Some code | None => Some code end) (open_ops s), [])
   | _ => (s, [])
   end.
 
@@ -178,6 +184,14 @@ Proof. vm_compute. reflexivity. Qed.
 (* ... but a SendMsg that fails after the handler returned is legitimate, and its message is not owed to the handler *)
 Example failed_send_after_return_ok :
   spec_c02 true [COpenS 0 2; COpenR 0 0; HStS 0; HRet 0 0; CSendS 0 11; CSendR 0 9; CRecvS 0; CRecvR 0 (RErr 1)] = [].
+Proof. vm_compute. reflexivity. Qed.
+(* the write fault "delivered, then an error": the message arrives once (fine), twice (a duplicate: code 2) *)
+Example ackloss_once_ok :
+  spec_c02 true [COpenS 0 2; COpenR 0 0; HStS 0; CSendS 0 11; CSendR 0 77; HRecvS 0; HRecvR 0 (ROk 11); HRecvS 0; HRecvR 0 (RErr 2); HRet 0 1002;
+                 CRecvS 0; CRecvR 0 (RErr 2)] = [].
+Proof. vm_compute. reflexivity. Qed.
+Example ackloss_retry_duplicates :
+  spec_c02 false [COpenS 0 2; COpenR 0 0; HStS 0; CSendS 0 11; CSendR 0 0; HRecvS 0; HRecvR 0 (ROk 11); HRecvS 0; HRecvR 0 (ROk 11)] = [2]%nat.
 Proof. vm_compute. reflexivity. Qed.
 Example hung_recv :
   spec_c02 true [COpenS 0 1; COpenR 0 0; HStS 0; HRet 0 0; CRecvS 0] = [7]%nat.
